@@ -299,6 +299,11 @@ void target_run(Tape &t)
 		uint8_t label_ctx[16];
 		for (int i = 0; i < 16; i++) label_ctx[i] = (uint8_t)(i * 7 + version);
 		uint8_t ek[2][40];
+		// RFC 5705 distinguishes "no context" from a context of length zero (bearssl_ssl.h says so too): one of the
+		// three forms per case
+		unsigned ctx_form = (unsigned)(version + si->id + cp.entropy[0]) % 3;   // 0: 16-byte context, 1: empty context, 2: no context
+		const uint8_t *ectx = ctx_form == 2 ? nullptr : label_ctx;
+		size_t ectx_len = ctx_form == 0 ? 16 : 0;
 		unsigned ver[2];
 		unsigned suite[2];
 		Bytes sid[2];
@@ -311,13 +316,13 @@ void target_run(Tape &t)
 				ver[side] = pp.version; suite[side] = pp.cipher_suite;
 				sid[side].assign(pp.session_id, pp.session_id + pp.session_id_len);
 				VF_CHECK(br_ssl_engine_get_version(be->eng) == pp.version, "%s: get_version disagrees with session parameters", desc.c_str());
-				VF_CHECK(br_ssl_key_export(be->eng, ek[side], 40, "EXPERIMENTAL verif", label_ctx, 16) == 1, "%s: key export refused", desc.c_str());
+				VF_CHECK(br_ssl_key_export(be->eng, ek[side], 40, "EXPERIMENTAL verif", ectx, ectx_len) == 1, "%s: key export refused", desc.c_str());
 			} else if (pairing >= 3) {
 				MbedEndpoint *me = static_cast<MbedEndpoint *>(e);
 				ver[side] = me->version();
 				suite[side] = me->suite();
 				sid[side] = me->session_id();
-				VF_CHECK(me->key_export(ek[side], 40, "EXPERIMENTAL verif", label_ctx, 16), "harness: mbedtls export");
+				VF_CHECK(me->key_export(ek[side], 40, "EXPERIMENTAL verif", ectx, ectx_len), "harness: mbedtls export");
 			} else {
 				OsslEndpoint *oe = static_cast<OsslEndpoint *>(e);
 				ver[side] = (unsigned)SSL_version(oe->ssl);
@@ -325,13 +330,15 @@ void target_run(Tape &t)
 				unsigned l = 0;
 				const unsigned char *p = SSL_SESSION_get_id(SSL_get_session(oe->ssl), &l);
 				sid[side].assign(p, p + l);
-				VF_CHECK(SSL_export_keying_material(oe->ssl, ek[side], 40, "EXPERIMENTAL verif", 18, label_ctx, 16, 1) == 1, "harness: openssl export");
+				VF_CHECK(SSL_export_keying_material(oe->ssl, ek[side], 40, "EXPERIMENTAL verif", 18, label_ctx, ectx_len, ctx_form != 2) == 1, "harness: openssl export");
 			}
 		}
 		VF_CHECK(ver[0] == version && ver[1] == version, "%s: versions reported %04x / %04x, configured %04x", desc.c_str(), ver[0], ver[1], version);
 		VF_CHECK(suite[0] == si->id && suite[1] == si->id, "%s: suites reported %04x / %04x, configured %04x", desc.c_str(), suite[0], suite[1], si->id);
 		VF_CHECK(sid[0] == sid[1], "%s: session IDs differ: %s vs %s", desc.c_str(), hex(sid[0].data(), sid[0].size()).c_str(), hex(sid[1].data(), sid[1].size()).c_str());
-		VF_CHECK(memcmp(ek[0], ek[1], 40) == 0, "%s: exported key material differs: %s vs %s", desc.c_str(), hex(ek[0], 40).c_str(), hex(ek[1], 40).c_str());
+		VF_CHECK(memcmp(ek[0], ek[1], 40) == 0, "%s: exported key material (%s) differs: %s vs %s", desc.c_str(), ctx_form == 0 ? "16-byte context" : ctx_form == 1 ? "context of length zero" : "no context",
+			hex(ek[0], 40).c_str(), hex(ek[1], 40).c_str());
+		stats.cls(ctx_form == 0 ? "export:with-context" : ctx_form == 1 ? "export:empty-context" : "export:no-context");
 		params_checked = true;
 	};
 	struct timespec ts0, ts1;   // tracing aid only (VERIF_TRACE); never influences the case
